@@ -1016,13 +1016,104 @@ def _x_aranges_lookup(cat, op, obs):
     return out
 
 
+def _x_aranges_entries(cat, op, obs):
+    d = cat.get('dwarf')
+    raw = d and d.get('raw_aranges')
+    if raw is None or not obs:
+        return
+    exp = ('ARanges', tuple(('ARangeEntry',) + t for t in sorted(raw, key=lambda t: t[0])))
+    if obs[0] != exp:
+        return [('raw table model: every encoded tuple with its set header, ordered by begin address', 0, exp, obs[0])]
+
+
+def _raw_pub(cat, which):
+    d = cat.get('dwarf')
+    return d and d.get('raw_pub', {}).get(which)
+
+
+def _x_pub_headers(cat, op, obs):
+    raw = _raw_pub(cat, op[1])
+    if raw is None or not obs:
+        return
+    exp = tuple(('C', ('unit_length', s['header'][0]), ('version', s['header'][1]), ('debug_info_offset', s['header'][2]),
+                 ('debug_info_length', s['header'][3])) for s in raw)
+    out = []
+    if obs[0] != exp:
+        out.append(('raw table model: one header per encoded set, in order', 0, exp, obs[0]))
+    names = _raw_names(raw)
+    if names is not None and len(obs) > 1 and obs[1] != tuple(names):
+        out.append(('raw table model: names in encoded order', 1, tuple(names), obs[1]))
+    if names is not None and len(obs) > 2 and obs[2] != len(names):
+        out.append(('raw table model: number of distinct names', 2, len(names), obs[2]))
+    return out
+
+
+def _raw_names(raw):
+    seen = []
+    ss = set()
+    for s in raw:
+        for nm, rel in s['names']:
+            try:
+                n = nm.decode('utf-8')
+            except UnicodeDecodeError:
+                return None
+            if n not in ss:
+                ss.add(n)
+                seen.append(n)
+    return seen
+
+
+def _raw_targets(raw, name):
+    return [(s['header'][2], s['header'][2] + rel) for s in raw for nm, rel in s['names'] if nm == name.encode('utf-8')]
+
+
+def _x_pub_items_raw(cat, op, obs):
+    raw = _raw_pub(cat, op[1])
+    if raw is None:
+        return
+    names = _raw_names(raw)
+    if names is None:
+        return
+    out = []
+    n = len(names) if op[2] is None else min(op[2], len(names))
+    for i in range(n):
+        if i >= len(obs):
+            out.append(('raw table model: an item per encoded name', i, names[i], ('MISSING-STEP',)))
+            break
+        o = obs[i]
+        ok = isinstance(o, tuple) and len(o) == 2 and o[0] == names[i] and isinstance(o[1], tuple) and             (o[1][1], o[1][2]) in _raw_targets(raw, names[i])
+        if not ok:
+            out.append(('raw table model: name -> (unit offset, absolute entry offset) in encoded order', i,
+                        (names[i], _raw_targets(raw, names[i])), o))
+            break
+    return out
+
+
+def _x_pub_get(cat, op, obs):
+    raw = _raw_pub(cat, op[1])
+    if raw is None:
+        return
+    out = []
+    for i, nm in enumerate(op[2]):
+        if i >= len(obs):
+            break
+        t = _raw_targets(raw, nm)
+        o = obs[i]
+        if not t:
+            if o is not None:
+                out.append(('raw table model: name not encoded', i, None, o))
+        elif not (isinstance(o, tuple) and len(o) == 3 and (o[1], o[2]) in t):
+            out.append(('raw table model: name -> (unit offset, absolute entry offset)', i, t, o))
+    return out
+
+
 def _x_pub_items(cat, op, obs):
     d = cat.get('dwarf')
     items = d and d['pub'].get(op[1])
     if items is None:
         return
     exp = [(k, ('NameLUTEntry', c, dd)) for k, c, dd in items]
-    return _cmp_seq('table items in encoded order', obs, 0, _seq(exp, op[2]))
+    return (_cmp_seq('table items in encoded order', obs, 0, _seq(exp, op[2])) or []) + (_x_pub_items_raw(cat, op, obs) or [])
 
 
 def _x_lut_die(cat, op, obs):
@@ -1052,4 +1143,5 @@ _CROSS = {
     'die_iter': _x_die_iter, 'die_at': _x_die_at, 'die_at_info': _x_die_at_info, 'die_children': _x_die_children,
     'die_parent': _x_die_parent, 'die_parent_chain': _x_die_parent_chain, 'die_siblings': _x_die_siblings,
     'die_ref': _x_die_ref, 'aranges_lookup': _x_aranges_lookup, 'pub_items': _x_pub_items, 'lut_die': _x_lut_die,
+    'aranges_entries': _x_aranges_entries, 'pub_headers': _x_pub_headers, 'pub_get': _x_pub_get,
 }
